@@ -204,3 +204,25 @@ pub fn gen_multi_route_case(rng: &mut Rng, metric: bool) -> Value {
         (0..n_jobs).map(|_| json!({"places": gen_places(rng, n, horizon), "dem": gen_single_dem(rng, dims, false)})).collect();
     json!({"k": "evalall", "n": n, "dur": dur, "dist": dist, "obj": "distance", "routes": routes, "cands": jobs})
 }
+
+/// as `gen_multi_route_case`, with some candidates being multi-task jobs (pickup then delivery of one shipment): their
+/// sequences are evaluated by `eval_multi`, whose alternatives must not leak between work items either
+pub fn gen_multi_route_case_with_multi_jobs(rng: &mut Rng, metric: bool) -> Value {
+    let mut case = gen_multi_route_case(rng, metric);
+    let n = case["n"].as_u64().unwrap() as usize;
+    let dims = case["routes"][0]["cap"].as_array().unwrap().len();
+    let horizon = case["routes"].as_array().unwrap().iter().flat_map(|r| r["tour"].as_array().unwrap().iter()).map(|a| a["e"].as_i64().unwrap_or(0)).max().unwrap_or(0).min(2000) + 60;
+    let extra = rng.usize(2, 5);
+    let cands = case["cands"].as_array_mut().unwrap();
+    for _ in 0..extra {
+        let p = rnd_load(rng, dims, 2);
+        cands.push(json!({"multi": [
+            {"places": gen_places(rng, n, horizon), "dem": [zero(dims), p.clone(), zero(dims), zero(dims)]},
+            {"places": gen_places(rng, n, horizon), "dem": [zero(dims), zero(dims), zero(dims), p]},
+        ]}));
+    }
+    // mixed order: multi-task and single-task candidates interleaved
+    rng.shuffle(cands);
+    case["k"] = json!("evalall_multi");
+    case
+}
